@@ -149,7 +149,68 @@ class ExpandReturnIfExp(_Blocks):
         return out
 
 
-MUTATORS = {"flip_cmp": FlipCmp, "return_ifexp": ReturnIfExp, "expand_return_ifexp": ExpandReturnIfExp,"invert_else": InvertElse, "nest_tail": NestTail, "flatten_tail": FlattenTail, "aug": Aug, "unaug": UnAug}
+class ReturnTemp(_Blocks):
+    """`return E` (E a call / operation) -> `_ret = E; return _ret`"""
+
+    def block(self, stmts):
+        out = []
+        for st in stmts:
+            if isinstance(st, ast.Return) and isinstance(st.value, (ast.Call, ast.BinOp, ast.Compare, ast.Subscript)):
+                out.append(ast.copy_location(ast.Assign(targets=[ast.Name(id="_ret", ctx=ast.Store())], value=st.value), st))
+                out.append(ast.copy_location(ast.Return(value=ast.Name(id="_ret", ctx=ast.Load())), st))
+            else:
+                out.append(st)
+        return out
+
+
+class DeMorgan(ast.NodeTransformer):
+    """`not (a or b)` -> `not a and not b`, `not (a and b)` -> `not a or not b` (same operands, same order, same
+    short-circuit)"""
+
+    def visit_UnaryOp(self, n):
+        self.generic_visit(n)
+        if isinstance(n.op, ast.Not) and isinstance(n.operand, ast.BoolOp):
+            op = ast.And() if isinstance(n.operand.op, ast.Or) else ast.Or()
+            return ast.copy_location(ast.BoolOp(op=op, values=[_neg(v) for v in n.operand.values]), n)
+        return n
+
+
+class MergeNot(ast.NodeTransformer):
+    """`not a and not b` -> `not (a or b)` (the reverse of DeMorgan, when every operand is negated)"""
+
+    def visit_BoolOp(self, n):
+        self.generic_visit(n)
+        if len(n.values) >= 2 and all(isinstance(v, ast.UnaryOp) and isinstance(v.op, ast.Not) for v in n.values):
+            op = ast.Or() if isinstance(n.op, ast.And) else ast.And()
+            return ast.copy_location(ast.UnaryOp(op=ast.Not(), operand=ast.BoolOp(op=op, values=[v.operand for v in n.values])), n)
+        return n
+
+
+class SplitAnd(ast.NodeTransformer):
+    """`if a and b: X` (no else) -> `if a: if b: X`"""
+
+    def visit_If(self, n):
+        self.generic_visit(n)
+        if not n.orelse and isinstance(n.test, ast.BoolOp) and isinstance(n.test.op, ast.And) and len(n.test.values) == 2:
+            inner = ast.copy_location(ast.If(test=n.test.values[1], body=n.body, orelse=[]), n)
+            return ast.copy_location(ast.If(test=n.test.values[0], body=[inner], orelse=[]), n)
+        return n
+
+
+class MergeAnd(ast.NodeTransformer):
+    """`if a: if b: X` (no else on either, nothing else in the outer body) -> `if a and b: X`"""
+
+    def visit_If(self, n):
+        self.generic_visit(n)
+        if not n.orelse and len(n.body) == 1 and isinstance(n.body[0], ast.If) and not n.body[0].orelse:
+            inner = n.body[0]
+            return ast.copy_location(ast.If(test=ast.BoolOp(op=ast.And(), values=[n.test, inner.test]),
+                                            body=inner.body, orelse=[]), n)
+        return n
+
+
+MUTATORS = {"return_temp": ReturnTemp, "demorgan": DeMorgan, "merge_not": MergeNot, "split_and": SplitAnd,
+            "merge_and": MergeAnd,"flip_cmp": FlipCmp, "return_ifexp": ReturnIfExp, "expand_return_ifexp": ExpandReturnIfExp,"invert_else": InvertElse, "nest_tail": NestTail, "flatten_tail": FlattenTail, "aug": Aug, "unaug": UnAug}
 
 
 def rewrite_tree(root, name, only=None):
